@@ -27,6 +27,8 @@ open Cascette.Props.C04
 #print axioms idx_offset_cut_to_30_bits
 #print axioms offset_past_1GiB_wraps_after_reopen
 #print axioms idx_offset_wrap_witness
+#print axioms tabulated_steps_are_the_model
+#print axioms update_section_overflow_entry_survives_reopen_witness
 -- translator tie: constants / predicates extracted from the current Rust source (lib/rs2lean_archive.py) = what the model computes with
 #print axioms Cascette.Proofs.ArchiveTie.header_size_tie
 #print axioms Cascette.Proofs.ArchiveTie.archive_limits_tie
